@@ -123,6 +123,8 @@ pub struct BatchReport {
 pub trait Harness {
     type Scn: Serialize + DeserializeOwned + Clone + std::fmt::Debug;
     const NAME: &'static str;
+    /// maximum number of executions the minimiser may spend on one violation
+    const MINIMISE_BUDGET: u64 = 3000;
     /// Build the explicit scenario for one run. `prop` selects workload bias and knobs.
     fn generate(seed: u64, tier: Tier, prop: &str) -> Self::Scn;
     /// Execute a scenario against the real code and the oracle.
@@ -131,6 +133,9 @@ pub trait Harness {
     fn size(scn: &Self::Scn) -> usize;
     /// Simpler variants of the scenario, most aggressive first.
     fn shrink(scn: &Self::Scn) -> Vec<Self::Scn>;
+    /// Called once on the minimised failing scenario before it is written out: a harness
+    /// may embed what an exact replay needs (e.g. the failing schedule).
+    fn finalize(_scn: &mut Self::Scn, _prop: &str, _target: &Violation) {}
     /// Short human-readable rendering for evidence samples.
     fn sample(scn: &Self::Scn) -> serde_json::Value {
         serde_json::to_value(scn).unwrap_or(serde_json::Value::Null)
@@ -231,7 +236,8 @@ pub fn run_batch<H: Harness>(prop: &str, tier: Tier, seed_base: u64, first: u64,
                 continue;
             }
             seen_checks.insert(key);
-            let (min_scn, min_v, used) = minimise::<H>(&scn, prop, v, 3000);
+            let (mut min_scn, min_v, used) = minimise::<H>(&scn, prop, v, H::MINIMISE_BUDGET);
+            H::finalize(&mut min_scn, prop, &min_v);
             // fingerprint of the minimised scenario
             let mut scratch = Stats::default();
             let fin = H::execute(&min_scn, prop, &mut scratch);
